@@ -56,6 +56,7 @@ FUNCTIONS = [
     ("json_tokener.c", "json_tokener_new_ex"),
     ("printbuf.c", "printbuf_new"),
     ("arraylist.c", "array_list_new2"),
+    ("json_object.c", "_json_object_set_string_len"),
 ]
 
 
@@ -147,9 +148,10 @@ def indent(text, n=1):
 
 # ----------------------------------------------------------------------------- translator
 class Fn:
-    def __init__(self, ast, name, enumvals=None):
+    def __init__(self, ast, name, enumvals=None, is_identity=None):
         self.name = name
         self.enumvals = enumvals or {}
+        self.is_identity = is_identity or (lambda fn: False)   # callee is `static inline T *f(U *p) { return (void *)p; }`
         self.in_loop = False      # inside the body of the (single-level) loop being translated
         self.no_hoist = False
         self.loop_brk = None
@@ -187,6 +189,11 @@ class Fn:
             return self.path_of(n["inner"][0])
         if k == "DeclRefExpr":
             return ident(n["referencedDecl"]["name"])
+        if k == "CallExpr" and self.is_identity(self.callee_name(n)) and len(n["inner"]) == 2:
+            arg = n["inner"][1]
+            while arg["kind"] in ("ImplicitCastExpr", "ParenExpr", "CStyleCastExpr"):
+                arg = arg["inner"][0]
+            return self.path_of(arg)
         if k == "MemberExpr":
             base = n["inner"][0]
             while base["kind"] in ("ImplicitCastExpr", "ParenExpr") and base.get("castKind", "LValueToRValue") in ("LValueToRValue", "NoOp"):
@@ -633,6 +640,8 @@ class Fn:
         args = n["inner"][1:]
         rty = ctype(n.get("type", {}))
         if name in ("__builtin_expect",):
+            return self.ex(args[0], env, k)
+        if self.is_identity(name) and len(args) == 1:
             return self.ex(args[0], env, k)
         if name in ("__assert_fail", "abort", "json_abort", "exit"):
             # a call that does not return: the rest of the path is dead; reaching it is recorded
@@ -1098,6 +1107,35 @@ def resolve_enums(repo, cfg, src, names):
     return vals
 
 
+_IDENT_CACHE = {}
+
+
+def identity_oracle(repo, cfg, src):
+    """fn name -> is it a function whose whole body is `return <casts of its only parameter>;` (json-c's JC_* helpers)"""
+    def strip_casts(n):
+        while n.get("kind") in ("ImplicitCastExpr", "ParenExpr", "CStyleCastExpr"):
+            n = n["inner"][0]
+        return n
+
+    def check(fn):
+        key = (src, fn)
+        if key not in _IDENT_CACHE:
+            ok = False
+            if re.fullmatch(r"[A-Za-z_][A-Za-z0-9_]*", fn or ""):
+                a = ast_of(repo, cfg, src, fn)
+                if a is not None:
+                    params = [c for c in a.get("inner", []) if c.get("kind") == "ParmVarDecl"]
+                    body = [c for c in a.get("inner", []) if c.get("kind") == "CompoundStmt"]
+                    if len(params) == 1 and body and len(body[0].get("inner", [])) == 1:
+                        st = body[0]["inner"][0]
+                        if st.get("kind") == "ReturnStmt" and st.get("inner"):
+                            e = strip_casts(st["inner"][0])
+                            ok = e.get("kind") == "DeclRefExpr" and e.get("referencedDecl", {}).get("name") == params[0].get("name")
+            _IDENT_CACHE[key] = ok
+        return _IDENT_CACHE[key]
+    return check
+
+
 HEADER = """/- GENERATED by tools/extract/c2lean.py from /repo's current sources (clang's typed AST) - do not edit. -/
 import JsonC.Base.CSem
 set_option linter.unusedVariables false
@@ -1118,7 +1156,7 @@ def generate(repo, cfg):
         ev = resolve_enums(repo, cfg, src, enum_names(ast, set()))
         RECORD_SIZES.clear()
         RECORD_SIZES.update(resolve_sizes(repo, cfg, src, record_types(ast, set())))
-        out.append(Fn(ast, fn, ev).lean())
+        out.append(Fn(ast, fn, ev, identity_oracle(repo, cfg, src)).lean())
     out.append("end JsonC.Translated\n")
     return "\n".join(out)
 
